@@ -79,6 +79,10 @@ def worker(args, scratch):
         os.makedirs(vdir + "/audit")
         key_dir = os.path.join(hroot, "keys")
         ws = wsmock.WsMock("168.63.129.16", 80, rng=r, key_dir=key_dir)
+        if h % 5 == 3:
+            ws.guid_case = "short"        # key ids like "k1", "7": what a key id looks like is the host's business
+        elif h % 5 == 4:
+            ws.guid_case = "upper"
         ws.gate_at = 1
         sh = shimmod.Shim(os.path.join(hroot, "shim"), runtime="paused", verif_dir=vdir)
         trace = []
